@@ -10,7 +10,7 @@ from pbt.harness import PropertyViolation, Inconclusive
 ID = "C19"
 TITLE = "R-style distribution helpers are the distributions they name"
 RULE = ("Hypothesis draws (family, function kind d/p/q/r/roundtrip/nbinom-forms, parameters in the valid "
-        "range rounded to 6 significant digits, an argument placed through a uniform quantile level so "
+        "range rounded to 6 significant digits - in a fifth of the cases whole numbers handed over as Python or NumPy ints -, an argument placed through a uniform quantile level so "
         "that it is spread over the whole support, log flag, integer seed, n, parameters handed over in the historical positional/keyword mix or all by keyword; in a third of the d/p/q cases the same argument is asked again for 1-2 other parameter sets and then for the first one - no answer may depend on an earlier call). Oracle: closed-form "
         "density/mass/cdf written with mpmath at 30 digits in R's parameterisation (rate, not scale); "
         "q checked through the reference cdf; r checked for same-seed equality, support and a KS test "
@@ -50,6 +50,26 @@ def _pos(lo=0.05, hi=20.0):
 
 @st.composite
 def _params(draw, fam):
+    if draw(st.integers(0, 4)) == 0:
+        # whole-number parameters handed over as Python ints (rate=2, sd=3, df=5): the same distributions
+        k = lambda lo=1, hi=12: draw(st.integers(lo, hi))
+        if fam == "exp":
+            return {"rate": k()}
+        if fam == "gamma":
+            return {"shape": k(), "rate": k()}
+        if fam == "norm":
+            return {"mean": draw(st.integers(-12, 12)), "sd": k()}
+        if fam == "chisq":
+            return {"df": k(1, 30)}
+        if fam == "unif":
+            lo = draw(st.integers(-12, 12))
+            return {"min": lo, "max": lo + k(1, 20)}
+        if fam == "beta":
+            return {"shape1": k(), "shape2": k()}
+        if fam == "pois":
+            return {"mu": k(1, 40)}
+        if fam == "nbinom":
+            return {"size": k(1, 25), "prob": draw(st.floats(0.05, 0.95).map(_sig))}
     if fam == "exp":
         return {"rate": draw(_pos())}
     if fam == "gamma":
@@ -90,7 +110,8 @@ def strategy(tier):
              "log": draw(st.booleans()),
              "seed": draw(st.integers(0, 2 ** 32 - 1)),
              "n": draw(st.sampled_from([1, 1, 2, 3, 5, 8, 13, 20])),
-             "style": draw(st.sampled_from(["mixed", "mixed", "keyword", "positional"]))}
+             "style": draw(st.sampled_from(["mixed", "mixed", "keyword", "positional"])),
+             "int_form": draw(st.sampled_from(["python", "python", "numpy"]))}
         if kind in ("d", "p", "q") and fam != "nbinom" and draw(st.integers(0, 2)) == 0:
             # the same argument asked again for other parameter values (and back): no answer may depend on an earlier call
             c["again"] = [draw(_params(fam)) for _ in range(draw(st.integers(1, 2)))]
@@ -200,10 +221,15 @@ _ORDER = {"exp": ["rate"], "gamma": ["shape", "rate"], "norm": ["mean", "sd"], "
 _STYLE = ["mixed"]          # how parameters are handed over in this case: the historical mix, or all by keyword
 
 
+_INT_FORM = ["python"]      # whole-number parameters as Python ints or NumPy integer scalars
+
+
 def _call(fn, fam, x, P, use_defaults, **kw):
     """Call pygom.utilR.<fn> with keyword parameters (or with none, to exercise the defaults)."""
     import pygom.utilR as R
     f = getattr(R, fn)
+    if _INT_FORM[0] == "numpy":
+        P = {k: (np.int64(v) if isinstance(v, int) and not isinstance(v, bool) else v) for k, v in P.items()}
     if use_defaults:
         return f(x, **kw)
     if _STYLE[0] == "keyword" and fam != "nbinom":
@@ -238,6 +264,9 @@ def _close(got, ref, rtol, what, key, case):
 
 def oracle(case, rec):
     _STYLE[0] = case.get("style", "mixed")
+    _INT_FORM[0] = case.get("int_form", "python")
+    if any(isinstance(v, int) and not isinstance(v, bool) for k, v in case["params"].items() if not (case["family"] == "binom" and k == "size")):
+        rec.label("parameters:whole-numbers-as-" + _INT_FORM[0] + "-int")
     x_first = _oracle_one(case, rec)
     if case.get("again"):
         rec.label("call-sequence:same-argument-other-parameters")
